@@ -45,6 +45,8 @@ namespace heap {
    void init();                            // map the arena (idempotent)
    void reset(uint64_t seed, int policy);  // start of a run: empty arena, fresh policy stream
    void set_owner(int owner);              // sub-arena used for subsequent SUT allocations
+   void set_policy(int policy);            // switch the placement policy in the middle of a run (per client)
+   int  policy();
    int  owner();
    void begin_op(uint32_t op_index);       // allocations are tagged with this op; per-op counter reset
    void arm_fault(uint32_t k);             // the k-th SUT allocation of the current op throws bad_alloc (0 = disarm)
